@@ -39,6 +39,7 @@ type SProgram struct {
 	Blocks int   `json:"blocks"`
 	Init   int   `json:"init"`  // number of nodes brought up RW before the ops run
 	Pings  bool  `json:"pings"` // monitor pings every 150 ms (otherwise effectively off)
+	RegAll bool  `json:"regall,omitempty"` // all initial replicas register before the volume starts
 	Ops    []SOp `json:"ops"`
 }
 
@@ -60,6 +61,12 @@ type SExec struct {
 	Live                   *Image
 	Acked                  []ackedWrite
 	Frozen                 map[int]int // node -> log length at the time it was detached
+	// registrations: evt counts registrations and end-of-step membership scans;
+	// regSeq[n] = evt of node n's latest registration, listedSeq[n] = evt of the
+	// latest scan that found n in the controller's replica list
+	evt       int
+	regSeq    map[int]int
+	listedSeq map[int]int
 	AttAck                 map[int]int // node -> len(Acked) when it was (re)attached
 	AttLog                 map[int]int // node -> len(node log) when it was (re)attached
 	Trace                  []string
@@ -99,7 +106,7 @@ func NewSExec(p SProgram) (*SExec, error) {
 		return nil, err
 	}
 	x := &SExec{St: st, P: p, Mode: make([]types.Mode, p.Nodes), Live: NewImage(int64(p.Blocks) * Blk),
-		subBlockWO: map[int]map[int64]bool{}, Frozen: map[int]int{}, AttAck: map[int]int{}, AttLog: map[int]int{}, Labels: map[string]int{}, prevRO: true}
+		subBlockWO: map[int]map[int64]bool{}, Frozen: map[int]int{}, regSeq: map[int]int{}, listedSeq: map[int]int{}, AttAck: map[int]int{}, AttLog: map[int]int{}, Labels: map[string]int{}, prevRO: true}
 	for _, n := range st.Nodes {
 		n.StallFor = sRW + 700*time.Millisecond
 	}
@@ -156,6 +163,39 @@ func (x *SExec) detach(i int) {
 	}
 }
 
+// scanListed notes which nodes the controller lists right now.
+func (x *SExec) scanListed() {
+	for _, r := range x.St.C.VerifState().Replicas {
+		for j, n := range x.St.Nodes {
+			if n.Addr == r.Address {
+				x.listedSeq[j] = x.evt
+			}
+		}
+	}
+}
+
+// ghostRegs: nodes whose registration the controller still holds although they
+// were attached after they registered and have been detached since - detaching
+// a replica drops its registration (it has to register again), so such an entry
+// counts a replica that is not there.
+func (x *SExec) ghostRegs() []int {
+	vs := x.St.C.VerifState()
+	listed := map[string]bool{}
+	for _, r := range vs.Replicas {
+		listed[r.Address] = true
+	}
+	var g []int
+	for j, n := range x.St.Nodes {
+		if _, ok := vs.Registered[n.IP]; !ok || listed[n.Addr] {
+			continue
+		}
+		if ls, was := x.listedSeq[j]; was && ls > x.regSeq[j] {
+			g = append(g, j)
+		}
+	}
+	return g
+}
+
 func (x *SExec) noteRO() {
 	ro := x.readOnly()
 	if ro && !x.prevRO {
@@ -174,12 +214,22 @@ func (x *SExec) Init() *Fail {
 	if x.P.Init == 0 {
 		return nil
 	}
+	x.St.RegAll = x.P.RegAll
 	if err := x.St.BringUp(x.P.Init); err != nil {
 		return sfail("init|bringup-failed", err.Error(), "C03", "C07", "C18")
 	}
 	for i := 0; i < x.P.Init; i++ {
 		x.Mode[i] = types.RW
 	}
+	x.evt = 2
+	for ip := range x.St.C.VerifState().Registered {
+		for j, n := range x.St.Nodes {
+			if n.IP == ip {
+				x.regSeq[j] = 1
+			}
+		}
+	}
+	x.scanListed()
 	x.noteRO()
 	x.lastOp = "init"
 	return x.Verify()
@@ -200,6 +250,8 @@ func (x *SExec) Step(i int, op SOp) *Fail {
 	if f := x.apply(i, op); f != nil {
 		return f
 	}
+	x.evt++
+	x.scanListed()
 	if m := takeFatal(); m != "" {
 		return sfail("stack|"+op.K+"|process-exit", m, "C18", "C14")
 	}
@@ -222,8 +274,19 @@ func (x *SExec) apply(i int, op SOp) *Fail {
 			return nil // only a closed replica can register
 		}
 		before := x.listed()
+		ghosts := x.ghostRegs()
+		regs := map[int]bool{n: true}
+		for ip := range st.C.VerifState().Registered {
+			for j, nd := range st.Nodes {
+				if nd.IP == ip {
+					regs[j] = true
+				}
+			}
+		}
 		started, err := st.Boot(n)
-		x.tracef("boot n%d -> started=n%d err=%v", n, started, err)
+		x.evt++
+		x.regSeq[n] = x.evt
+		x.tracef("boot n%d -> started=n%d err=%v (registered before: %v, of them detached since they registered: %v)", n, started, err, keysOf(regs), ghosts)
 		if before > 0 || started < 0 {
 			// volume already has replicas, or no majority registered yet: nothing may change
 			return nil
@@ -233,6 +296,26 @@ func (x *SExec) apply(i int, op SOp) *Fail {
 				return nil // the signalled replica is not closed (still running detached): it cannot attach
 			}
 			return sfail("boot|refused", fmt.Sprintf("start of the signalled replica failed: %v", err), "C09")
+		}
+		for _, g := range ghosts {
+			if g != n {
+				delete(regs, g)
+			}
+		}
+		if len(regs) < x.P.RF/2+1 {
+			// the volume starts although fewer than a majority of the replicas have
+			// registered: the controller counted registrations of replicas that it
+			// had attached and detached since
+			props := []string{"C09"}
+			detail := fmt.Sprintf("n%d was asked to start the volume with %d of RF=%d replicas registered (%v); the controller also counted %v, which it had attached and detached after they registered", started, len(regs), x.P.RF, keysOf(regs), ghosts)
+			buf := make([]byte, x.Live.size())
+			if _, rerr := st.C.ReadAt(buf, 0); rerr == nil {
+				if d := x.Live.Diff(buf, 0); d != "" {
+					props = append(props, "C04")
+					detail += "; the volume now serves reads that miss acknowledged writes: " + d
+				}
+			}
+			return sfail("boot|started-without-majority", detail, props...)
 		}
 		n = started
 		x.Mode[n] = types.RW
@@ -351,7 +434,30 @@ func (x *SExec) apply(i int, op SOp) *Fail {
 				x.Labels["promote:writes-before-setrebuilding-false"]++
 			}
 		}
+		var raceDone chan *Fail
+		if op.Str == "verifyrace" && cpFail == 0 && op.N == 0 && !x.readOnly() {
+			// an initiator write arrives while the controller verifies the rebuilt
+			// replica (its chain fetch from that replica is held for a moment): the
+			// write is served before or after the switch-over as a whole - either way
+			// all RW replicas agree on the revision count afterwards
+			h := st.Nodes[n].HoldRest("GET /v1/replicas/1", 120*time.Millisecond)
+			raceDone = make(chan *Fail, 1)
+			go func() {
+				select {
+				case <-h.Arrived:
+					x.Labels["promote:write-during-verification"]++
+					raceDone <- x.fgWrite(i, op.Seed, 7, op.Reps == 1)
+				case <-time.After(5 * time.Second):
+					raceDone <- nil
+				}
+			}()
+		}
 		err := st.Promote(src, n)
+		if raceDone != nil {
+			if f := <-raceDone; f != nil && wf == nil {
+				wf = f
+			}
+		}
 		st.PromoWindow = nil
 		for _, nd := range st.Nodes {
 			nd.ClearFaults()
@@ -2829,4 +2935,13 @@ func (x *SExec) doCtlResize(i int, op SOp) *Fail {
 		return x.doRead(i*100+2, SOp{K: "read", Off: old / Sec, Len: (newSize - old) / Sec, Reps: 1})
 	}
 	return nil
+}
+
+func keysOf(m map[int]bool) []int {
+	var k []int
+	for i := range m {
+		k = append(k, i)
+	}
+	sort.Ints(k)
+	return k
 }
